@@ -246,6 +246,12 @@ func onlyFieldAccess(al *ssa.Alloc) bool {
 				}
 			}
 		case *ssa.UnOp, *ssa.DebugRef:
+		case *ssa.Store:
+			// "return x" of a named result stores the variable to itself first: not an assignment
+			if sl, ok := u.Val.(*ssa.UnOp); ok && u.Addr == ssa.Value(al) && sl.Op == token.MUL && sl.X == ssa.Value(al) {
+				continue
+			}
+			return false
 		default:
 			return false
 		}
